@@ -8,6 +8,7 @@ wrappers.  exp is compared with a 50-digit reference exponential; log(T) is chec
 finiteness, algebra form, |w| <= pi and by exponentiating it with the REFERENCE exponential, so a
 log defect cannot hide behind an exp defect.  Group elements are built by the 50-digit reference.
 """
+import itertools
 import math
 import numpy as np
 from mc import ref, alph
@@ -319,6 +320,7 @@ def unit_twist_cases(ctx, algebra, tier, seed):
     else:
         for qn, q in (('0', (0, 0)), ('g', (0.5, -1.5)), ('1e3', (600.0, 800.0))):
             units.append(('rev(q=%s)' % qn, np.r_[q[1], -q[0], 1.0]))
+            units.append(('rev-(q=%s)' % qn, np.r_[-q[1], q[0], -1.0]))        # clockwise unit twist about the same pole
         units.append(('pris(x)', np.r_[1.0, 0, 0]))
         units.append(('pris(g)', np.r_[-0.6, 0.8, 0]))
     for un, U in units:
@@ -435,6 +437,82 @@ def sequence_cases(ctx):
 
 # --------------------------------------------------------------------------- enumeration
 
+def integer_cases(ctx):
+    """group and algebra elements held in integer arrays (hand-typed quarter and half turns, integer translations and twists):
+    the complete set of signed permutation rotations (4 in 2-D, 24 in 3-D) x integer translations x dtype; oracle = the float
+    checks above plus agreement with the same call on the float copy"""
+    import spatialmath as sm
+    import spatialmath.base as b
+    rots2 = [np.array([[c, -s_], [s_, c]]) for c, s_ in ((1, 0), (0, 1), (-1, 0), (0, -1))]
+    rots3 = []
+    for perm in itertools.permutations(range(3)):
+        for sg in itertools.product((1, -1), repeat=3):
+            R = np.zeros((3, 3), dtype=int)
+            for i in range(3):
+                R[i, perm[i]] = sg[i]
+            if round(np.linalg.det(R)) == 1:
+                rots3.append(R)
+    for dim, rots, trs in ((2, rots2, ((0, 0), (5, 3), (-2, 7))), (3, rots3, ((0, 0, 0), (1, 2, 3), (-4, 0, 6)))):
+        log = b.trlog if dim == 3 else b.trlog2
+        exp = b.trexp if dim == 3 else b.trexp2
+        ln, en = ('base.trlog', 'base.trexp') if dim == 3 else ('base.trlog2', 'base.trexp2')
+        for ri, R in enumerate(rots):
+            for ti, t in enumerate(trs):
+                for kind in ('so', 'se'):
+                    if kind == 'so' and ti:
+                        continue
+                    algebra = '%s%d' % (kind, dim)
+                    T = R.copy() if kind == 'so' else np.block([[R, np.array(t).reshape(dim, 1)], [np.zeros((1, dim), dtype=int), np.ones((1, 1), dtype=int)]])
+                    for dt in ('int64', 'int32', 'float32'):
+                        Ti = T.astype(dt)
+                        Tf = T.astype(float)
+                        C = getattr(sm, algebra.upper())
+                        for tw in (True, False):
+                            for site, f in ((ln, lambda A: log(A, twist=tw)), (C.__name__ + '.log', lambda A: C(A).log(twist=tw))):
+                                cid = 'C03/int/%s/R%d/t%d/%s/%s/twist=%d' % (algebra, ri, ti, dt, site, tw)
+                                if not ctx.want(cid):
+                                    continue
+                                ctx.case(cid, key=cid, trivial=(ri == 0 and ti == 0))
+                                P = dict(algebra=algebra, dtype=dt, twist=int(tw), mode='integer', rot=ri, tr=ti)
+                                ok, L = call(f, Ti.copy())
+                                okf, Lf = call(f, Tf.copy())
+                                if not okf:
+                                    continue            # the float case is judged by the element shards
+                                if not ok:
+                                    ctx.fail(cid, site, 'raises:' + type(L).__name__, P, 'log of an %s matrix raised %r (the float copy works)' % (dt, L))
+                                    continue
+                                check_log_output(ctx, cid, site, P, L, tw, algebra, Tf, None, 0.0)
+                                if L is not None and np.asarray(L).shape == np.asarray(Lf).shape and np.asarray(L).dtype != object:
+                                    # at a half turn the axis sign is free: compare through the exponential only (done above)
+                                    half = abs(np.trace(R) - (dim - 2)) < 1e-9 if dim == 3 else ri == 2
+                                    if not half and ref.maxdiff(np.asarray(L, dtype=float), np.asarray(Lf, dtype=float)) > 1e-6 * tscale(Tf, algebra):
+                                        ctx.fail(cid, site, 'mismatch', dict(P, what='dtype'), 'log of the %s matrix differs from the log of its float copy' % dt)
+        # integer algebra elements: exp of integer vectors and matrices equals exp of the float copy
+        ivecs = {2: {'so': [np.array([k]) for k in (0, 1, -2, 3)], 'se': [np.array(v) for v in ((1, 2, 0), (0, 0, 1), (3, -1, 2), (-2, 5, -3))]},
+                 3: {'so': [np.array(v) for v in ((0, 0, 0), (1, 0, 0), (0, -2, 0), (1, 1, 1), (2, -1, 2))],
+                     'se': [np.array(v) for v in ((1, 2, 3, 0, 0, 0), (0, 0, 0, 0, 0, 1), (1, -2, 3, 1, 0, -1), (4, 0, -5, 0, 2, 0))]}}[dim]
+        for kind, vs in ivecs.items():
+            algebra = '%s%d' % (kind, dim)
+            C = getattr(sm, algebra.upper())
+            for vi, v in enumerate(vs):
+                for dt, form in itertools.product(('int64', 'int32'), ('vec', 'mat')):
+                    for site, f in ((en, exp), (C.__name__ + '.Exp', lambda A: C.Exp(A).A)):
+                        cid = 'C03/int/%s/S%d/%s/%s/%s' % (algebra, vi, dt, form, site)
+                        if not ctx.want(cid):
+                            continue
+                        ctx.case(cid, key=cid, trivial=not np.any(v))
+                        P = dict(algebra=algebra, dtype=dt, form=form, mode='integer')
+                        arg = v.astype(dt) if form == 'vec' else np.round(to_matrix(v.astype(float), algebra)).astype(dt)
+                        okf, Tf = call(f, np.asarray(arg, dtype=float))
+                        ok, T = call(f, arg.copy())
+                        if not okf:
+                            continue
+                        if not ok:
+                            ctx.fail(cid, site, 'raises:' + type(T).__name__, P, 'exp of an %s %s raised %r (the float copy works)' % (dt, form, T))
+                            continue
+                        check_exp_output(ctx, cid, site, P, T, v.astype(float), algebra)
+
+
 def elements(algebra, tier, seed):
     """yields (names dict, S vector, theta)"""
     if algebra in ('so3', 'se3'):
@@ -469,6 +547,7 @@ def shards(tier, seed):
     for a in ('so2', 'se2', 'so3', 'se3'):
         out.append(('unit', a))
     out.append(('seq',))
+    out.append(('int',))
     return out
 
 
@@ -480,5 +559,7 @@ def run_shard(ctx, shard):
                 one_element(ctx, algebra, np.asarray(S, dtype=float), dict(names), th)
     elif shard[0] == 'seq':
         sequence_cases(ctx)
+    elif shard[0] == 'int':
+        integer_cases(ctx)
     else:
         unit_twist_cases(ctx, shard[1], ctx.tier, ctx.seed)
